@@ -60,9 +60,16 @@ def step (s : St) : List String → St × String
   | ["symrun", _tpl] => (s, "ok")
   | ["symobjs"] =>
     (s, encList id (sortTokens (s.objs.map fun e => s!"{encStr e.obj.file}:{if e.obj.hasDwarf then 1 else 0}")))
-  | ["sym", alts] => match decList? decAlt? alts with
+  -- the third token is written by the harness: the file names of the objects the process has mapped (observed
+  -- independently of the debugger); a session whose `symobj` lines do not declare exactly those objects has fed the
+  -- model the wrong registry, and both sides say so instead of answering
+  | ["sym", alts, mapped] => match decList? decAlt? alts with
     | some [] => (s, "bad-op")
-    | some as => (s, encList id (sortTokens ((getSymbolsE s.objs (patMatches as)).map encSym)))
+    | some as =>
+      let declared := sortTokens (s.objs.map fun e => encStr e.obj.file)
+      let seen := sortTokens (if mapped == "-" then [] else mapped.splitOn ",")
+      if declared != seen then (s, "objects-not-declared")
+      else (s, encList id (sortTokens ((getSymbolsE s.objs (patMatches as)).map encSym)))
     | none => (s, "bad-op")
   | _ => (s, "bad-op")
 
